@@ -531,7 +531,6 @@ func checkDiscriminatorAgreement(c *Ctx, rule string, gen *packages.Package) {
 	c.Ok(rule, "generator.makeGenDefinitionHierarchy › subtype DiscriminatorValue from discee."+written[0], c.posOf(gen, wpos), "writer side")
 }
 
-
 // checkOptionalFile: wherever the server's file binder lets sentinel errors of r.FormFile
 // (http.ErrMissingFile, http.ErrNotMultipart) through the error arm, an arm of its own must take
 // exactly those before the value is bound: otherwise an omitted optional file reaches the handler
@@ -627,7 +626,6 @@ func checkFacadeFormats(c *Ctx, ev *tmpl.Evaluator) {
 	}
 }
 
-
 // checkIndexedJoins: swag.JoinByFormat / SplitByFormat return an empty slice for empty input;
 // generated code that takes element [0] of such a result (a variable named after the parameter)
 // must be inside `if len(X) > 0 {` or follow `if len(X) == 0 { X = []string{…} }`.
@@ -702,7 +700,6 @@ func checkInnerArraysKept(c *Ctx, rule string, ev *tmpl.Evaluator) {
 		c.Ok(rule, "sliceparambinder › inner arrays are bound unconditionally", l.Tree.File, "no length test around the recursion")
 	}
 }
-
 
 // checkDefaultMedia: the runtime serves an operation that has no media type of its own with
 // application/json; the serializer lists the generated API registers (makeConsumes /
